@@ -33,7 +33,8 @@ pub const F_FORK: usize = 19;
 pub const F_RESTORE: usize = 20;
 pub const F_RESET_STORM: usize = 21;
 pub const F_DUP_STORM: usize = 22;
-pub const N_FAULTS: usize = 23;
+pub const F_SOAK_LOOP: usize = 23;
+pub const N_FAULTS: usize = 24;
 pub const FAULT_NAMES: [&str; N_FAULTS] = [
     "drop",
     "dup",
@@ -58,6 +59,7 @@ pub const FAULT_NAMES: [&str; N_FAULTS] = [
     "checkpoint-restore",
     "reset-storm",
     "dup-storm",
+    "soak-loop",
 ];
 
 /// Per-property weights. One world, shifted towards the property's subject.
@@ -265,6 +267,9 @@ pub fn draw_cfg(r: &mut Rng, p: &Preset) -> Cfg {
         if r.chance(1, 12) {
             rate[F_DUP_STORM] = *r.pick(&[10u64, 30]);
         }
+        if r.chance(1, 10) {
+            rate[F_SOAK_LOOP] = *r.pick(&[15u64, 40]);
+        }
         if r.chance(1, 4) {
             rate[F_POLL_WRONG_CHANNEL] = *r.pick(&[20u64, 80]);
         }
@@ -408,6 +413,7 @@ pub struct Gen<'a> {
     recent_pos: [u8; 16],
     run: u64,
     sweep_k: u64,
+    soaks: u8,
 }
 
 fn is_pn(cn: u8) -> bool {
@@ -420,7 +426,7 @@ impl<'a> Gen<'a> {
         let special = [0u16, 1, 2, 5, 6, 127, 128, 16383];
         let mut pick_num = |r: &mut Rng| if r.chance(1, 3) { *r.pick(&special) } else { r.below(16384) as u16 };
         let numbers = [(pick_num(r), r.chance(1, 2)), (pick_num(r), r.chance(1, 2))];
-        let mut g = Gen { r, p, cfg, ev: Vec::new(), next_group: 0, uniq: [0; 16], numbers, inflight: [false; 16], pending_value: [false; 16], stats, rr_next: 0, stall_left: 0, snap_state: None, recent: [[0, 127, 64, 1]; 16], recent_pos: [0; 16], run, sweep_k: 0 };
+        let mut g = Gen { r, p, cfg, ev: Vec::new(), next_group: 0, uniq: [0; 16], numbers, inflight: [false; 16], pending_value: [false; 16], stats, rr_next: 0, stall_left: 0, snap_state: None, recent: [[0, 127, 64, 1]; 16], recent_pos: [0; 16], run, sweep_k: 0, soaks: 0 };
         if g.cfg.channels.len() > 1 {
             g.stats.multi_channel_runs += 1;
         }
@@ -925,6 +931,20 @@ impl<'a> Gen<'a> {
         self.note_delivered(m);
     }
 
+    /// Soak loop: repeat the last few events many times (leaks and counters need many rounds of one
+    /// short cycle, e.g. value byte - wait - poll).
+    fn maybe_soak(&mut self) {
+        let rate = self.cfg.rate[F_SOAK_LOOP];
+        if rate == 0 || self.ev.len() < 2 || self.soaks >= 2 || self.r.below(1000) >= rate {
+            return;
+        }
+        let k = (*self.r.pick(&[1u8, 2, 2, 3, 3, 3, 4, 4, 5, 6, 8])).min(self.ev.len() as u8);
+        let n = *self.r.pick(&[3u16, 15, 127, 255, 256, 257, 257, 300, 600]);
+        self.soaks += 1;
+        self.fire(F_SOAK_LOOP, None);
+        self.ev.push(Ev::Repeat { k, n });
+    }
+
     fn emit_reset(&mut self) {
         // a fraction of resets are storms: counters that wrap want powers of two
         if self.cfg.rate[F_RESET_STORM] > 0 && self.r.below(1000) < self.cfg.rate[F_RESET_STORM] {
@@ -1135,6 +1155,7 @@ impl<'a> Gen<'a> {
                         self.emit_fork();
                     }
                     self.maybe_checkpoint();
+                    self.maybe_soak();
                 }
                 Action::PollTick => {
                     let period = self.cfg.poll_periodic.unwrap_or(0);
@@ -1163,6 +1184,7 @@ impl<'a> Gen<'a> {
                         self.fire(f, Some(c));
                     }
                     self.ev.push(Ev::Poll { ch: c });
+                    self.maybe_soak();
                 }
                 Action::OperatorReset(mid) => {
                     self.fire(if mid { F_RESET_MIDFLIGHT } else { F_RESET_PLAIN }, None);
@@ -1222,6 +1244,7 @@ impl<'a> Gen<'a> {
                 }
             } else if k < w_feed + w_poll {
                 self.ev.push(Ev::Poll { ch: c });
+                self.maybe_soak();
             } else if k < w_feed + w_poll + w_adv {
                 let t = self.cfg.timeout_ns;
                 let ns = match self.r.below(9) {
